@@ -925,6 +925,208 @@ def rawContrast := rawContrastWith allEntries
 /-- the specification: the same pairing of *directly computed* averages -/
 def rawContrastS := rawContrastWith allEntriesS
 
+
+/-! ## `plot_contrast`: the computation that precedes drawing (Phase 4) -/
+
+/-- `mode`: `'diff'` plots `l2 - l1`, `'prob'` plots `int(l2 - l1 > 0)` -/
+inductive CMode
+  | diff | prob
+  deriving DecidableEq, Repr
+
+/-- `contraster = (lambda t: t[1]-t[0]) if mode == 'diff' else (lambda t: int((t[1]-t[0])>0))` -/
+def contrastOf (m : CMode) (t : Rat × Rat) : Rat :=
+  match m with
+  | .diff => t.2 - t.1
+  | .prob => if t.2 - t.1 > 0 then 1 else 0
+
+/-- `_boundary = 0 if mode == 'diff' else .5` -/
+def boundaryOf : CMode → Rat
+  | .diff => 0
+  | .prob => 1 / 2
+
+/-- `errevery = errevery or max(int(raw_data['x'][-1]*0.05),1) if x == 'index' else 1`
+(parsed as `(errevery or max(..)) if x == 'index' else 1`; `0` is falsy) -/
+def errEveryOf (isIndex : Bool) (errevery : Option Nat) (lastX : Nat) : Nat :=
+  if isIndex then
+    match errevery with
+    | some (e + 1) => e + 1
+    | _ => max (lastX / 20) 1
+  else 1
+
+/-- a `PointAndInterval` object: `point(Z)` and `point_interval(Z) = (point, (lo, hi))` -/
+structure CiFn where
+  point : List Rat → Except Err Rat
+  interval : List Rat → Except Err (Rat × Rat × Rat)
+
+/-- one plotted point: x label (the `makex` pair), y, and the lower / upper error sizes -/
+structure CPoint where
+  x : Key × Key
+  y : Rat
+  lo : Rat
+  hi : Rat
+  deriving DecidableEq, Repr
+
+/-- `calc_ci(Z, i)` of `_confidence(err, errevery)`: without an interval object `(mean(Z), 0)`; with one the
+interval is computed only at every `errevery`-th point -/
+def calcCi (ci : Option CiFn) (every : Nat) (zs : List Rat) (i : Nat) : Except Err (Rat × Rat × Rat) :=
+  match ci with
+  | none =>
+    match meanL zs with
+    | .ok m => .ok (m, 0, 0)
+    | .error e => .error e
+  | some c =>
+    if (i + 1) % every ≠ 0 then
+      match c.point zs with
+      | .ok m => .ok (m, 0, 0)
+      | .error e => .error e
+    else c.interval zs
+
+/-- `for _xi, (_x, pairs) in enumerate(raw_data): X_Y_YE.append((_x,)+err(list(map(contraster,pairs)),_xi))` -/
+def contrastPointsFrom (mode : CMode) (ci : Option CiFn) (every : Nat) :
+    Nat → List ((Key × Key) × List (Rat × Rat)) → Except Err (List CPoint)
+  | _, [] => .ok []
+  | i, (x, ps) :: rest =>
+    match calcCi ci every (ps.map (contrastOf mode)) i with
+    | .error e => .error e
+    | .ok (y, lo, hi) =>
+      match contrastPointsFrom mode ci every (i + 1) rest with
+      | .error e => .error e
+      | .ok pts => .ok ({ x := x, y := y, lo := lo, hi := hi } :: pts)
+
+/-- stable insertion by `y` (`sorted(..., key=itemgetter(1))`): an earlier element goes before its equals -/
+def insertY (p : CPoint) : List CPoint → List CPoint
+  | [] => [p]
+  | q :: qs => if p.y ≤ q.y then p :: q :: qs else q :: insertY p qs
+
+def sortY : List CPoint → List CPoint
+  | [] => []
+  | p :: ps => insertY p (sortY ps)
+
+/-- the win / tie / loss split of `plot_contrast` (x neither `'index'` nor `l`), each part sorted by y -/
+def splitLines (b : Rat) (pts : List CPoint) : List (List CPoint) :=
+  [ sortY (pts.filter (fun p => p.y + p.hi < b)),
+    sortY (pts.filter (fun p => p.y - p.lo ≤ b ∧ b ≤ p.y + p.hi)),
+    sortY (pts.filter (fun p => b < p.y - p.lo)) ]
+
+/-- which of the three drawing branches applies: `x == 'index'`, `x == l`, otherwise -/
+inductive XKind
+  | index | isL | other
+  deriving DecidableEq, Repr
+
+/-- the data lines handed to the plotter (the boundary line is constant).  For `x == l` with one label per side the
+code's `sorted(X_Y_YE)` finds the list already sorted by x (`raw_contrast` sorts by x and the x are distinct). -/
+def contrastLines (k : XKind) (b : Rat) (pts : List CPoint) : List (List CPoint) :=
+  match k with
+  | .index => [pts]
+  | .isL => [pts]
+  | .other => splitLines b pts
+
+/-- insertion sort of the raw table by its x label (ascending `klt` on the first component: the index) -/
+def insertX (e : (Key × Key) × List (Rat × Rat)) : List ((Key × Key) × List (Rat × Rat)) → List ((Key × Key) × List (Rat × Rat))
+  | [] => [e]
+  | q :: qs => if klt q.1.1 e.1.1 then q :: insertX e qs else e :: q :: qs
+
+def sortX : List ((Key × Key) × List (Rat × Rat)) → List ((Key × Key) × List (Rat × Rat))
+  | [] => []
+  | e :: es => insertX e (sortX es)
+
+/-- `X,Y = zip(*sorted(XY.items()))`: for `x='index'` ascending index; otherwise the order Python's `sorted` gave the
+labels (`xord`, from the harness; it only decides the order among points of equal y, `errevery` being 1 there) -/
+def orderRaw (xord : Option (List (Key × Key))) (raw : List ((Key × Key) × List (Rat × Rat))) :
+    List ((Key × Key) × List (Rat × Rat)) :=
+  match xord with
+  | none => sortX raw
+  | some o => o.filterMap (fun k => raw.find? (fun e => e.1 = k))
+
+/-- the last index of the table (`raw_data['x'][-1]`) -/
+def lastIndexOf (raw : List ((Key × Key) × List (Rat × Rat))) : Nat :=
+  match raw.getLast? with
+  | some e => (e.1.1.headD 0).toNat
+  | none => 0
+
+/-- the pairs that `raw_contrast` forms from the two sides: for every pairing value present on both sides (in the
+order of the first side) `zip` / `product` of the entries with that value -/
+def contrastPairs (isIndex : Bool) (L1 L2 : List ((Key × Key) × Rat)) : List ((Key × Key) × (Rat × Rat)) :=
+  ((dedup (L1.map (·.1.1))).filter (fun k => (L2.map (·.1.1)).contains k)).flatMap
+    (fun k => pairUp isIndex (L1.filter (fun e => e.1.1 = k)) (L2.filter (fun e => e.1.1 = k)))
+
+/-- specification of the pairing: a reported pair takes its first value from an entry of side 1 and its second from an
+entry of side 2 **with the same pairing value**, and its x label from those two entries -/
+def PairedFrom (isIndex : Bool) (L1 L2 : List ((Key × Key) × Rat)) (e : (Key × Key) × (Rat × Rat)) : Prop :=
+  ∃ u ∈ L1, ∃ w ∈ L2, u.1.1 = w.1.1 ∧ e.2 = (u.2, w.2) ∧
+    e.1 = (if isIndex then (u.1.2, u.1.2) else (u.1.2, w.1.2))
+
+/-- everything `plot_contrast` computes before drawing: `raw_contrast`, the contrasts per x, point estimate and
+error sizes, the lines.  `vals` = how one evaluation's value is computed (code / direct averages). -/
+def plotContrastWith (vals : Result → List Col → XSpec → Option Nat → List (Triple × List IRow) → Except Err (List ((Key × Key) × Rat)))
+    (r : Result) (sels1 sels2 : List (List (Tbl × Option Nat × Int))) (pc : List Col) (x : XSpec) (span : Option Nat)
+    (strX : Bool) (xord : Option (List (Key × Key))) (mode : CMode) (ci : Option CiFn) (errevery : Option Nat)
+    (kind : XKind) : Except Err (List (List CPoint)) :=
+  match rawContrastWith vals r sels1 sels2 pc x span strX with
+  | .error e => .error e
+  | .ok raw =>
+    let tbl := orderRaw xord raw
+    match contrastPointsFrom mode ci (errEveryOf (x = .index) errevery (lastIndexOf tbl)) 0 tbl with
+    | .error e => .error e
+    | .ok pts => .ok (contrastLines kind (boundaryOf mode) pts)
+
+def plotContrast := plotContrastWith allEntries
+def plotContrastS := plotContrastWith allEntriesS
+
+/-- the interval object used by the correspondence check (all-rational): point = mean, error sizes = distance of the
+mean to the smallest / largest contrast -/
+def minL : Rat → List Rat → Rat
+  | m, [] => m
+  | m, z :: zs => minL (if z < m then z else m) zs
+def maxL : Rat → List Rat → Rat
+  | m, [] => m
+  | m, z :: zs => maxL (if m < z then z else m) zs
+
+def rangeCi : CiFn where
+  point := meanL
+  interval := fun zs =>
+    match zs, meanL zs with
+    | z :: rest, .ok m => .ok (m, m - minL z rest, maxL z rest - m)
+    | _, .error e => .error e
+    | [], .ok _ => .error .statistics
+
+/-- the directly computed point of one x: the arithmetic mean of the contrasts of its pairs, no error bar -/
+def meanPoint (mode : CMode) (e : (Key × Key) × List (Rat × Rat)) : CPoint :=
+  { x := e.1, y := sumL (e.2.map (contrastOf mode)) / (e.2.length : Rat), lo := 0, hi := 0 }
+
+/-- a small Result for the non-vacuity example of the `plot_contrast` theorem: 2 environments × 2 learners, 2 rewards each -/
+def cexPlot : Result :=
+  { envs := [{ id := 0, cells := [] }, { id := 1, cells := [] }],
+    lrns := [{ id := 0, cells := [] }, { id := 1, cells := [] }],
+    evals := [{ id := 0, cells := [] }],
+    ints := [ { e := 0, l := 0, v := 0, idx := 1, y := 1 }, { e := 0, l := 0, v := 0, idx := 2, y := 3 },
+              { e := 0, l := 1, v := 0, idx := 1, y := 2 }, { e := 0, l := 1, v := 0, idx := 2, y := 6 },
+              { e := 1, l := 0, v := 0, idx := 1, y := 0 }, { e := 1, l := 0, v := 0, idx := 2, y := 4 },
+              { e := 1, l := 1, v := 0, idx := 1, y := 5 }, { e := 1, l := 1, v := 0, idx := 2, y := 1 } ] }
+
+/-! ### the literal tables of `plot_contrast` / `_confidence` that the model implements
+(`Generated/C18Modes.lean` holds what `ast` extracts from the current source; `Props/C18.lean` proves them equal) -/
+
+def modeName : CMode → String
+  | .diff => "diff"
+  | .prob => "prob"
+
+/-- the accepted `err` strings of `_confidence` in dispatch order -/
+def errNamesM : List String := ["se", "bs", "bi", "sd"]
+/-- the special x value of `raw_contrast` / `plot_contrast` -/
+def xSpecialM : List String := ["index"]
+/-- comparison operators of the win / tie / loss split as `ast` names them: `upper < b`; `lower <= b and b <= upper`; `b < lower` -/
+def splitOpsM : List String := ["Lt", "LtE", "LtE", "Lt"]
+/-- `skip_err = (i+1) % errevery` -/
+def skipOffsetM : Nat := 1
+
+/-- `t[0]` / `t[1]` -/
+def pairProj (i : Nat) (t : Rat × Rat) : Rat := if i = 0 then t.1 else t.2
+/-- a Python comparison operator by its `ast` name -/
+def cmpOp (op : String) (a b : Rat) : Bool :=
+  if op = "Gt" then decide (a > b) else if op = "GtE" then decide (a ≥ b)
+  else if op = "Lt" then decide (a < b) else if op = "LtE" then decide (a ≤ b) else false
+
 /-! ## chains of `where_fin` / `where` -/
 
 /-- a well-formed Result: sorted interaction table (`Result.__init__` indexes it), primary keys, per-evaluation
